@@ -80,6 +80,32 @@ func (ex *Exec) freshResult(st *State, prefix string, t types.Type) Val {
 }
 
 func (ex *Exec) havocAll(st *State) {
+	// variables captured by the closure under verification are shared only with the enclosing
+	// function: a call to any other code leaves them unchanged (stated assumption)
+	type saved struct {
+		p *Ptr
+		v Val
+	}
+	var keep []saved
+	if ex.cur != nil {
+		for _, a := range ex.cur.fvAddr {
+			func() {
+				defer func() { recover() }()
+				p := st.ptrOf(a)
+				keep = append(keep, saved{p, st.load(p)})
+			}()
+		}
+		if len(keep) > 0 {
+			ex.noteAssumption("variables captured by a closure are modified only by the enclosing function's own code: calls to other code leave them unchanged")
+		}
+	}
+	defer func() {
+		for _, k := range keep {
+			if k.v.T != "" {
+				st.assume(sx("=", st.load(k.p).T, k.v.T))
+			}
+		}
+	}()
 	ex.ctx.mu.Lock()
 	var names []string
 	for n := range ex.ctx.heapSort {
